@@ -225,7 +225,7 @@ theorem exec_usercall {G : GCtx} (ok : G.OK) (fuel : Nat) (hcs : CallSpec G fuel
   have hs2 := evalArgs_pure G.xc es fuel' st s _ hp hev
   have hpo := po_pos pj
   obtain ⟨a1, b1, mem1, st1, rep1, hvals, _, frm1⟩ := exec_loadActuals (KOf G pi sp dep hi) wf.toWF es fuel' st s ws hp hev
-    pj.po gs.offset _ c2 gs2 i a b mem st.io h2 hat.left hr (by show gs2.size + (pj.po + es.length) ≤ G.S pi; omega) hnl
+    pj.po gs.offset _ c2 gs2 i a b mem st.io rfl h2 hat.left hr (by show gs2.size + (pj.po + es.length) ≤ G.S pi; omega) hnl
     (Nat.le_refl _) (fun x hx => hci x hx)
   have rep1s : Rep (KOf G pi sp dep hi) s mem1 := rep1.same hs2
   have grep := Rep.toG ok hpi rep1s
